@@ -76,6 +76,26 @@ FindClose(text, S, pos) ==
        IN IF j = 0 THEN None
           ELSE LET m == MatchIdx(text, S, j) IN IF m = 0 THEN None ELSE S[m]
 
+\* The same matching computed for all structurals at once with a stack (one pass):
+\* MatchTable(text, S)[j] = MatchIdx(text, S, j) for every open j, 0 elsewhere.
+\* (MC_SimpleNav checks the equality on every string; trace validation of large documents
+\* uses the table so that its cost stays linear.)
+MatchTable(text, S) ==
+  FoldLeft(LAMBDA a, j :
+             LET c == At(text, S[j])
+             IN IF IsOpenB(c) THEN [a EXCEPT !.stk = <<j>> \o @]
+                ELSE IF IsCloseB(c) /\ Len(a.stk) > 0
+                     THEN [stk |-> SubSeq(a.stk, 2, Len(a.stk)), m |-> [a.m EXCEPT ![a.stk[1]] = j]]
+                     ELSE a,
+           [stk |-> <<>>, m |-> [j \in 1..Len(S) |-> 0]],
+           [j \in 1..Len(S) |-> j]).m
+
+FindCloseT(text, S, M, pos) ==
+  IF pos < 0 \/ pos >= Len(text) THEN None
+  ELSE IF ~IsOpenB(At(text, pos)) THEN None
+  ELSE LET j == IdxOf(S, pos)
+       IN IF j = 0 THEN None ELSE IF M[j] = 0 THEN None ELSE S[M[j]]
+
 \* end of the string whose opening quote is at pos: position of the closing quote
 RECURSIVE StringClose(_, _)
 StringClose(text, i) ==
@@ -95,16 +115,20 @@ Lit(text, pos, w) == pos + Len(w) <= Len(text) /\ SubSeq(text, pos + 1, pos + Le
 \* first byte of a value or key): matching close + 1 for containers, closing quote + 1
 \* for strings, the literal's length for true/false/null, the maximal run of number
 \* bytes for numbers.  None when no value can start with that byte.
-SkipValue(text, S, pos) ==
+SkipValueF(text, pos, f) ==
   IF pos < 0 \/ pos >= Len(text) THEN None
   ELSE LET c == At(text, pos)
-       IN CASE IsOpenB(c) -> (LET f == FindClose(text, S, pos) IN IF f = None THEN None ELSE f + 1)
+       IN CASE IsOpenB(c) -> (IF f = None THEN None ELSE f + 1)
             [] c = 34 -> StringClose(text, pos + 1) + 1
             [] c = 116 -> IF Lit(text, pos, <<116, 114, 117, 101>>) THEN pos + 4 ELSE None
             [] c = 102 -> IF Lit(text, pos, <<102, 97, 108, 115, 101>>) THEN pos + 5 ELSE None
             [] c = 110 -> IF Lit(text, pos, <<110, 117, 108, 108>>) THEN pos + 4 ELSE None
             [] c = 45 \/ (c >= 48 /\ c <= 57) -> NumEnd(text, pos)
             [] OTHER -> None
+
+\* (f, the matching close, is only evaluated for containers)
+SkipValue(text, S, pos) == SkipValueF(text, pos, FindClose(text, S, pos))
+SkipValueT(text, S, M, pos) == SkipValueF(text, pos, FindCloseT(text, S, M, pos))
 
 -----------------------------------------------------------------------------
 \* Balanced-parentheses find_close on an explicit bit string (1 = open), definitional:
